@@ -6,6 +6,8 @@ import Ekit.Model.Races
     new stress <Type> <iters>        => clean | …      (4 workers, all methods)
     new seq <Type> <iters>           => clean | …      (writer sequences against readers)
     new directed <Type> <M1> <M2> <iters> => clean | … (directed search of checklib/props/C15.py)
+    new fresh <Type> <Form> <rounds> => clean | …      (first uses of new, unprimed instances built in construction
+                                                        form <Form> come from 2-4 goroutines; all method pairs in turn)
     new matrix <Type> <M1,M2,…>      => clean          (the methods the pair matrix goes through)
     new types <T1,T2,…>              => clean          (the types the matrix covers)
 
@@ -56,6 +58,11 @@ def checker (model : Bool) : Checker where
         ((), none)
     | ["new", "stress", t, _] =>
       match dyn s!"mixed stress of {t}" with
+      | some msg => ((), some msg)
+      | none => if model then ((), stressVerdict Ekit.Gen.AccessTable.accessTable t) else ((), none)
+    | ["new", "fresh", t, f, _] =>
+      -- the property speaks of the type, however an instance was (legitimately) built: same verdicts as `stress`
+      match dyn s!"first uses of a new {t} (construction form {f}) from several goroutines" with
       | some msg => ((), some msg)
       | none => if model then ((), stressVerdict Ekit.Gen.AccessTable.accessTable t) else ((), none)
     | ["new", "seq", t, _] =>
